@@ -1536,8 +1536,9 @@ class Bits:
         if _os.environ.get('BITSTRING_VERIF') == '1' and 'BITSTRING_VERIF_TOFILE_CHUNK_BITS' in _os.environ:
             # Verification hook (inactive unless BITSTRING_VERIF=1): lets a test cross the chunk boundary with small data.
             chunk_size = int(_os.environ['BITSTRING_VERIF_TOFILE_CHUNK_BITS'])
-        for chunk in self.cut(chunk_size):
-            f.write(chunk.tobytes())
+        # The chunks need to be written in stored order, whatever the bit numbering mode.
+        for start in range(0, len(self), chunk_size):
+            f.write(self._absolute_slice(start, min(start + chunk_size, len(self))).tobytes())
 
     def startswith(self, prefix: BitsType, start: Optional[int] = None, end: Optional[int] = None) -> bool:
         """Return whether the current bitstring starts with prefix.
